@@ -1,14 +1,14 @@
 (* C11 - the session stays referenced while it has observers: in every reachable state of the
-   model the references a session holds through subscriptions (st_ref: +1 in coap_add_observer,
+   model the references a session holds through subscriptions (obst_ref: +1 in coap_add_observer,
    -1 on every path that frees a subscription) equal the number of its subscriptions. *)
 From LibcoapV Require Import Base.Tactics Observe.Observe Observe.ObserveProofs.
 Local Open Scope Z_scope.
 
 Definition ob_cnt (s : Z) (l : list ob_sub) : Z :=
-  Z.of_nat (length (filter (fun x => sb_sess x =? s) l)).
+  Z.of_nat (length (filter (fun x => obsb_sess x =? s) l)).
 
 Lemma ob_count_sess_cons : forall s r rs,
-  ob_count_sess s (r :: rs) = ob_cnt s (rs_subs r) + ob_count_sess s rs.
+  ob_count_sess s (r :: rs) = ob_cnt s (obrs_subs r) + ob_count_sess s rs.
 Proof. reflexivity. Qed.
 
 Lemma ob_count_sess_app : forall s a b,
@@ -19,9 +19,9 @@ Proof.
 Qed.
 
 Lemma ob_cnt_cons : forall s x l,
-  ob_cnt s (x :: l) = (if sb_sess x =? s then 1 else 0) + ob_cnt s l.
+  ob_cnt s (x :: l) = (if obsb_sess x =? s then 1 else 0) + ob_cnt s l.
 Proof.
-  intros s x l. unfold ob_cnt. cbn [filter]. destruct (sb_sess x =? s); cbn [length]; lia.
+  intros s x l. unfold ob_cnt. cbn [filter]. destruct (obsb_sess x =? s); cbn [length]; lia.
 Qed.
 
 Lemma ob_cnt_nonneg : forall s l, 0 <= ob_cnt s l.
@@ -48,13 +48,13 @@ Proof.
 Qed.
 
 Definition ob_refs_ok (st : ob_state) : Prop :=
-  forall s, ob_ca_get (st_ref st) s = ob_count_sess s (st_res st).
+  forall s, ob_ca_get (obst_ref st) s = ob_count_sess s (obst_res st).
 
 (* replacing the resource with id r *)
 Lemma ob_count_upd : forall s r f rs x,
   ob_get_res r rs = Some x ->
   ob_count_sess s (ob_upd_res r f rs) =
-  ob_count_sess s rs - ob_cnt s (rs_subs x) + ob_cnt s (rs_subs (f x)).
+  ob_count_sess s rs - ob_cnt s (obrs_subs x) + ob_cnt s (obrs_subs (f x)).
 Proof.
   intros s r f rs x G. destruct (ob_get_res_split _ _ _ G) as [a [b [E1 [E2 E3]]]]. subst rs.
   rewrite (ob_upd_res_split r f a x b E2 E3), !ob_count_sess_app, !ob_count_sess_cons. lia.
@@ -63,11 +63,11 @@ Qed.
 Lemma ob_count_touch : forall s s0 t0 rs, ob_count_sess s (ob_touch s0 t0 rs) = ob_count_sess s rs.
 Proof.
   intros s s0 t0. induction rs as [|r rs IH]; [reflexivity|]. unfold ob_touch in *. cbn [map].
-  rewrite !ob_count_sess_cons, IH. f_equal. unfold ob_set_subs, ob_cnt. cbn [rs_subs].
-  f_equal. clear. induction (rs_subs r) as [|x l IH]; [reflexivity|]. cbn [map filter].
-  assert (sb_sess (ob_touch_sub s0 t0 x) = sb_sess x) as ->
+  rewrite !ob_count_sess_cons, IH. f_equal. unfold ob_set_subs, ob_cnt. cbn [obrs_subs].
+  f_equal. clear. induction (obrs_subs r) as [|x l IH]; [reflexivity|]. cbn [map filter].
+  assert (obsb_sess (ob_touch_sub s0 t0 x) = obsb_sess x) as ->
     by (unfold ob_touch_sub; destruct (ob_sub_is s0 t0 x); reflexivity).
-  destruct (sb_sess x =? s); cbn [length]; rewrite IH; reflexivity.
+  destruct (obsb_sess x =? s); cbn [length]; rewrite IH; reflexivity.
 Qed.
 
 Lemma ob_add_observer_cnt : forall s0 t0 o l s,
@@ -77,26 +77,26 @@ Proof.
   intros s0 t0 o l s. unfold ob_add_observer.
   destruct (ob_find (ob_sub_is s0 t0) l); [cbn; destruct (s0 =? s); lia|].
   destruct (ob_find (ob_sub_keyis s0 (ob_key o)) l) as [old|] eqn:F.
-  - pose proof (ob_cnt_remove1 s0 (sb_tok old) s l) as R.
-    pose proof (ob_remove1_flag (ob_sub_is s0 (sb_tok old)) l) as Fl.
-    destruct (ob_remove1 (ob_sub_is s0 (sb_tok old)) l) as [l' b]. cbn [fst snd] in *.
-    rewrite ob_cnt_cons. cbn [sb_sess]. rewrite R.
+  - pose proof (ob_cnt_remove1 s0 (obsb_tok old) s l) as R.
+    pose proof (ob_remove1_flag (ob_sub_is s0 (obsb_tok old)) l) as Fl.
+    destruct (ob_remove1 (ob_sub_is s0 (obsb_tok old)) l) as [l' b]. cbn [fst snd] in *.
+    rewrite ob_cnt_cons. cbn [obsb_sess]. rewrite R.
     (* old itself matches (s0, its token): something was removed *)
     assert (b = true).
     { rewrite Fl. apply ob_find_some in F. destruct F as [Hin Hk].
-      destruct (ob_find (ob_sub_is s0 (sb_tok old)) l) eqn:F2; [reflexivity|].
+      destruct (ob_find (ob_sub_is s0 (obsb_tok old)) l) eqn:F2; [reflexivity|].
       pose proof (ob_find_none _ _ F2 old Hin) as Hn. unfold ob_sub_keyis in Hk. unfold ob_sub_is in Hn.
       apply andb_true_iff in Hk. destruct Hk as [Hs _]. rewrite Hs, ob_bytes_eqb_refl in Hn. discriminate. }
     rewrite H. cbn [andb]. destruct (s0 =? s); lia.
-  - cbn [fst snd]. rewrite ob_cnt_cons. cbn [sb_sess]. destruct (s0 =? s); lia.
+  - cbn [fst snd]. rewrite ob_cnt_cons. cbn [obsb_sess]. destruct (s0 =? s); lia.
 Qed.
 
 Lemma ob_del_in_res_cnt : forall s0 t0 x s,
-  ob_cnt s (rs_subs (fst (ob_del_in_res s0 t0 x))) =
-  ob_cnt s (rs_subs x) - (if snd (ob_del_in_res s0 t0 x) && (s0 =? s) then 1 else 0).
+  ob_cnt s (obrs_subs (fst (ob_del_in_res s0 t0 x))) =
+  ob_cnt s (obrs_subs x) - (if snd (ob_del_in_res s0 t0 x) && (s0 =? s) then 1 else 0).
 Proof.
-  intros s0 t0 x s. unfold ob_del_in_res. pose proof (ob_cnt_remove1 s0 t0 s (rs_subs x)) as R.
-  destruct (ob_remove1 (ob_sub_is s0 t0) (rs_subs x)) as [l b]. cbn [fst snd rs_subs ob_set_subs] in *.
+  intros s0 t0 x s. unfold ob_del_in_res. pose proof (ob_cnt_remove1 s0 t0 s (obrs_subs x)) as R.
+  destruct (ob_remove1 (ob_sub_is s0 t0) (obrs_subs x)) as [l b]. cbn [fst snd obrs_subs ob_set_subs] in *.
   exact R.
 Qed.
 
@@ -118,7 +118,7 @@ Proof.
   intros p s0 t0 l s. induction l as [|x l IH]; cbn [ob_failed_subs]; [cbn; lia|].
   destruct (ob_sub_is s0 t0 x) eqn:E.
   - unfold ob_sub_is in E. apply andb_true_iff in E. destruct E as [E _]. apply Z.eqb_eq in E.
-    destruct (pr_max_fail p <=? sb_fail x + 1); cbn [fst snd andb]; rewrite !ob_cnt_cons; cbn [sb_sess];
+    destruct (obpr_max_fail p <=? obsb_fail x + 1); cbn [fst snd andb]; rewrite !ob_cnt_cons; cbn [obsb_sess];
       rewrite E; destruct (s0 =? s); lia.
   - destruct (ob_failed_subs p s0 t0 l) as [l' b]. cbn [fst snd] in *. rewrite !ob_cnt_cons, IH. lia.
 Qed.
@@ -129,10 +129,10 @@ Lemma ob_failed_all_cnt : forall p s0 t0 rs s,
 Proof.
   intros p s0 t0. induction rs as [|r rs IH]; intro s; cbn [ob_failed_all].
   - cbn. destruct (s0 =? s); lia.
-  - pose proof (ob_failed_subs_cnt p s0 t0 (rs_subs r) s) as R.
-    destruct (ob_failed_subs p s0 t0 (rs_subs r)) as [l b]. specialize (IH s).
+  - pose proof (ob_failed_subs_cnt p s0 t0 (obrs_subs r) s) as R.
+    destruct (ob_failed_subs p s0 t0 (obrs_subs r)) as [l b]. specialize (IH s).
     destruct (ob_failed_all p s0 t0 rs) as [tl' n]. cbn [fst snd] in *.
-    rewrite !ob_count_sess_cons. cbn [rs_subs ob_set_subs]. rewrite R, IH.
+    rewrite !ob_count_sess_cons. cbn [obrs_subs ob_set_subs]. rewrite R, IH.
     destruct b, (s0 =? s); cbn [andb]; lia.
 Qed.
 
@@ -141,14 +141,14 @@ Lemma ob_rst_by_last_cnt : forall s0 k rs s,
   ob_count_sess s rs - (if snd (ob_rst_by_last s0 k rs) && (s0 =? s) then 1 else 0).
 Proof.
   intros s0 k. induction rs as [|r rs IH]; intro s; cbn [ob_rst_by_last]; [cbn; lia|].
-  destruct (ob_find (fun x => (sb_last x =? k) && (sb_sess x =? s0)) (rs_subs r)) as [x|] eqn:F.
+  destruct (ob_find (fun x => (obsb_last x =? k) && (obsb_sess x =? s0)) (obrs_subs r)) as [x|] eqn:F.
   - cbn [fst snd andb]. rewrite !ob_count_sess_cons, ob_del_in_res_cnt.
     (* x is in the list and has session s0, so the deletion by (s0, token of x) finds something *)
-    assert (snd (ob_del_in_res s0 (sb_tok x) r) = true) as ->.
-    { unfold ob_del_in_res. pose proof (ob_remove1_flag (ob_sub_is s0 (sb_tok x)) (rs_subs r)) as Fl.
-      destruct (ob_remove1 (ob_sub_is s0 (sb_tok x)) (rs_subs r)) as [l b]. cbn [snd] in *. rewrite Fl.
+    assert (snd (ob_del_in_res s0 (obsb_tok x) r) = true) as ->.
+    { unfold ob_del_in_res. pose proof (ob_remove1_flag (ob_sub_is s0 (obsb_tok x)) (obrs_subs r)) as Fl.
+      destruct (ob_remove1 (ob_sub_is s0 (obsb_tok x)) (obrs_subs r)) as [l b]. cbn [snd] in *. rewrite Fl.
       apply ob_find_some in F. destruct F as [Hin Hp]. apply andb_true_iff in Hp. destruct Hp as [_ Hs].
-      destruct (ob_find (ob_sub_is s0 (sb_tok x)) (rs_subs r)) eqn:F2; [reflexivity|].
+      destruct (ob_find (ob_sub_is s0 (obsb_tok x)) (obrs_subs r)) eqn:F2; [reflexivity|].
       pose proof (ob_find_none _ _ F2 x Hin) as Hn. unfold ob_sub_is in Hn.
       rewrite Hs, ob_bytes_eqb_refl in Hn. discriminate. }
     cbn [andb]. lia.
@@ -161,15 +161,15 @@ Lemma ob_count_lost : forall s0 rs s,
 Proof.
   intros s0. induction rs as [|r rs IH]; intro s; cbn [map]; [destruct (s0 =? s); reflexivity|].
   rewrite !ob_count_sess_cons, IH.
-  assert (ob_cnt s (rs_subs (ob_lost_res s0 r)) = if s0 =? s then 0 else ob_cnt s (rs_subs r)).
-  { unfold ob_lost_res, ob_set_subs, ob_cnt. cbn [rs_subs].
-    induction (rs_subs r) as [|x l IHl]; cbn [filter]; [destruct (s0 =? s); reflexivity|].
-    destruct (sb_sess x =? s0) eqn:E1; cbn [negb filter].
-    - destruct (sb_sess x =? s) eqn:E2.
+  assert (ob_cnt s (obrs_subs (ob_lost_res s0 r)) = if s0 =? s then 0 else ob_cnt s (obrs_subs r)).
+  { unfold ob_lost_res, ob_set_subs, ob_cnt. cbn [obrs_subs].
+    induction (obrs_subs r) as [|x l IHl]; cbn [filter]; [destruct (s0 =? s); reflexivity|].
+    destruct (obsb_sess x =? s0) eqn:E1; cbn [negb filter].
+    - destruct (obsb_sess x =? s) eqn:E2.
       + apply Z.eqb_eq in E1, E2. assert (s0 =? s = true) as E3 by (apply Z.eqb_eq; lia).
         rewrite E3 in *. assumption.
       + assumption.
-    - destruct (sb_sess x =? s) eqn:E2; cbn [length].
+    - destruct (obsb_sess x =? s) eqn:E2; cbn [length].
       + apply Z.eqb_eq in E2. assert (s0 =? s = false) as E3 by (apply Z.eqb_neq; apply Z.eqb_neq in E1; lia).
         rewrite E3 in *. lia.
       + assumption. }
@@ -179,41 +179,41 @@ Qed.
 (* the notify loop releases one reference per observer it removes (error answers) *)
 Lemma ob_notify_subs_refs : forall p r subs l subs' pd l' outs s,
   ob_notify_subs p r subs l = (subs', pd, l', outs) ->
-  ob_ca_get (lp_ref l') s - ob_cnt s subs' = ob_ca_get (lp_ref l) s - ob_cnt s subs.
+  ob_ca_get (oblp_ref l') s - ob_cnt s subs' = ob_ca_get (oblp_ref l) s - ob_cnt s subs.
 Proof.
   intros p r. induction subs as [|x tl IH]; intros l subs' pd l' outs s H; cbn [ob_notify_subs] in H.
   - inversion H; subst. reflexivity.
-  - destruct (negb (rs_dirty r) && negb (sb_dirty x)).
+  - destruct (negb (obrs_dirty r) && negb (obsb_dirty x)).
     { destruct (ob_notify_subs p r tl (ob_lp_pend l)) as [[[tl' pd0] l0] outs0] eqn:E.
       inversion H; subst. rewrite !ob_cnt_cons. specialize (IH _ _ _ _ _ s E). cbn in IH. lia. }
-    destruct (ob_blocked p (rs_mode r) (lp_ca l) x).
+    destruct (ob_blocked p (obrs_mode r) (oblp_ca l) x).
     { destruct (ob_notify_subs p r tl (ob_lp_pend l)) as [[[tl' pd0] l0] outs0] eqn:E.
-      inversion H; subst. rewrite !ob_cnt_cons. cbn [sb_sess]. specialize (IH _ _ _ _ _ s E). cbn in IH. lia. }
-    destruct (rs_err r).
+      inversion H; subst. rewrite !ob_cnt_cons. cbn [obsb_sess]. specialize (IH _ _ _ _ _ s E). cbn in IH. lia. }
+    destruct (obrs_err r).
     { match type of H with context [ob_notify_subs p r tl ?L] =>
         destruct (ob_notify_subs p r tl L) as [[[tl' pd0] l0] outs0] eqn:E end.
       inversion H; subst. rewrite ob_cnt_cons. specialize (IH _ _ _ _ _ s E).
-      unfold ob_lp_release, ob_lp_sent in IH. cbn [lp_ref] in IH. rewrite ob_ref_get_add in IH.
-      destruct (sb_sess x =? s) eqn:E1; [apply Z.eqb_eq in E1; rewrite E1 in IH|]; lia. }
+      unfold ob_lp_release, ob_lp_sent in IH. cbn [oblp_ref] in IH. rewrite ob_ref_get_add in IH.
+      destruct (obsb_sess x =? s) eqn:E1; [apply Z.eqb_eq in E1; rewrite E1 in IH|]; lia. }
     match type of H with context [ob_notify_subs p r tl ?L] =>
       destruct (ob_notify_subs p r tl L) as [[[tl' pd0] l0] outs0] eqn:E end.
-    inversion H; subst. rewrite !ob_cnt_cons. cbn [sb_sess]. specialize (IH _ _ _ _ _ s E).
-    unfold ob_lp_sent in IH. cbn [lp_ref] in IH. lia.
+    inversion H; subst. rewrite !ob_cnt_cons. cbn [obsb_sess]. specialize (IH _ _ _ _ _ s E).
+    unfold ob_lp_sent in IH. cbn [oblp_ref] in IH. lia.
 Qed.
 
 Lemma ob_notify_all_refs : forall p rs l rs' l' outs s,
   ob_notify_all p rs l = (rs', l', outs) ->
-  ob_ca_get (lp_ref l') s - ob_count_sess s rs' = ob_ca_get (lp_ref l) s - ob_count_sess s rs.
+  ob_ca_get (oblp_ref l') s - ob_count_sess s rs' = ob_ca_get (oblp_ref l) s - ob_count_sess s rs.
 Proof.
   intros p. induction rs as [|r rs IH]; intros l rs' l' outs s H; cbn [ob_notify_all] in H.
   - inversion H; subst. reflexivity.
   - destruct (ob_notify_res p r l) as [[r1 l1] o1] eqn:E1.
     destruct (ob_notify_all p rs l1) as [[tl' l2] o2] eqn:E2. inversion H; subst.
     rewrite !ob_count_sess_cons. specialize (IH _ _ _ _ s E2).
-    assert (ob_ca_get (lp_ref l1) s - ob_cnt s (rs_subs r1) = ob_ca_get (lp_ref l) s - ob_cnt s (rs_subs r)).
-    { unfold ob_notify_res in E1. destruct (rs_dirty r || rs_pdirty r).
-      - destruct (ob_notify_subs p r (rs_subs r) l) as [[[subs' pd] l0] outs0] eqn:E.
-        inversion E1; subst. cbn [rs_subs]. eapply ob_notify_subs_refs. eassumption.
+    assert (ob_ca_get (oblp_ref l1) s - ob_cnt s (obrs_subs r1) = ob_ca_get (oblp_ref l) s - ob_cnt s (obrs_subs r)).
+    { unfold ob_notify_res in E1. destruct (obrs_dirty r || obrs_pdirty r).
+      - destruct (ob_notify_subs p r (obrs_subs r) l) as [[[subs' pd] l0] outs0] eqn:E.
+        inversion E1; subst. cbn [obrs_subs]. eapply ob_notify_subs_refs. eassumption.
       - inversion E1; subst. reflexivity. }
     lia.
 Qed.
@@ -222,26 +222,26 @@ Lemma ob_gone_subs_refs : forall p r ca subs rf s,
   ob_ca_get (snd (ob_gone_subs p r ca subs rf)) s = ob_ca_get rf s - ob_cnt s subs.
 Proof.
   intros p r ca. induction subs as [|x tl IH]; intros rf s; cbn [ob_gone_subs]; [cbn; lia|].
-  specialize (IH (ob_ref_add rf (sb_sess x) (-1)) s).
-  destruct (ob_gone_subs p r ca tl (ob_ref_add rf (sb_sess x) (-1))) as [outs rf'].
+  specialize (IH (ob_ref_add rf (obsb_sess x) (-1)) s).
+  destruct (ob_gone_subs p r ca tl (ob_ref_add rf (obsb_sess x) (-1))) as [outs rf'].
   cbn [snd] in *. assert (ob_ca_get rf' s = ob_ca_get rf s - ob_cnt s (x :: tl)).
   { rewrite IH, ob_ref_get_add, ob_cnt_cons.
-    destruct (sb_sess x =? s) eqn:E1; [apply Z.eqb_eq in E1; rewrite E1|]; lia. }
-  destruct (ob_blocked p (rs_mode r) ca x); cbn [snd]; assumption.
+    destruct (obsb_sess x =? s) eqn:E1; [apply Z.eqb_eq in E1; rewrite E1|]; lia. }
+  destruct (ob_blocked p (obrs_mode r) ca x); cbn [snd]; assumption.
 Qed.
 
 Lemma ob_step_refs : forall p st op, ob_refs_ok st -> ob_refs_ok (fst (ob_step p st op)).
 Proof.
   intros p st op H s. specialize (H s). destruct op; cbn [ob_step fst].
   - (* register *)
-    unfold ob_register. destruct (ob_get_res r (st_res st)) as [res|] eqn:G; [|exact H].
-    pose proof (ob_add_observer_cnt s0 t o (rs_subs res) s) as A.
-    destruct (ob_add_observer s0 t o (rs_subs res)) as [l d]. cbn [fst snd] in A.
-    assert (C1 : ob_count_sess s (ob_touch s0 t (ob_upd_res r (fun x => ob_set_subs x l) (st_res st))) =
-                 ob_count_sess s (st_res st) + (if s0 =? s then d else 0)).
-    { rewrite ob_count_touch, (ob_count_upd s r _ _ res G). cbn [rs_subs ob_set_subs]. lia. }
-    destruct (rs_err res); cbn [fst st_ref st_res].
-    + set (rs2 := ob_touch s0 t (ob_upd_res r (fun x => ob_set_subs x l) (st_res st))) in *.
+    unfold ob_register. destruct (ob_get_res r (obst_res st)) as [res|] eqn:G; [|exact H].
+    pose proof (ob_add_observer_cnt s0 t o (obrs_subs res) s) as A.
+    destruct (ob_add_observer s0 t o (obrs_subs res)) as [l d]. cbn [fst snd] in A.
+    assert (C1 : ob_count_sess s (ob_touch s0 t (ob_upd_res r (fun x => ob_set_subs x l) (obst_res st))) =
+                 ob_count_sess s (obst_res st) + (if s0 =? s then d else 0)).
+    { rewrite ob_count_touch, (ob_count_upd s r _ _ res G). cbn [obrs_subs ob_set_subs]. lia. }
+    destruct (obrs_err res); cbn [fst obst_ref obst_res].
+    + set (rs2 := ob_touch s0 t (ob_upd_res r (fun x => ob_set_subs x l) (obst_res st))) in *.
       rewrite !ob_ref_get_add. destruct (ob_get_res r rs2) as [x2|] eqn:G2.
       * rewrite (ob_count_upd s r _ _ x2 G2), ob_del_in_res_cnt, C1.
         destruct (snd (ob_del_in_res s0 t x2)); destruct (s0 =? s) eqn:E1; cbn [andb];
@@ -249,65 +249,65 @@ Proof.
       * rewrite (ob_upd_res_none _ _ _ G2), C1. destruct (s0 =? s) eqn:E1; [apply Z.eqb_eq in E1; subst s0|]; rewrite ?Z.eqb_refl; lia.
     + rewrite ob_ref_get_add, C1. destruct (s0 =? s) eqn:E1; [apply Z.eqb_eq in E1; subst s0|]; rewrite ?Z.eqb_refl; lia.
   - (* cancel *)
-    unfold ob_cancel. destruct (ob_get_res r (st_res st)) as [res|] eqn:G; [|exact H].
-    assert (A : ob_cnt s (fst (ob_cancel_subs s0 t o (rs_subs res))) =
-                ob_cnt s (rs_subs res) -
-                (if snd (ob_cancel_subs s0 t o (rs_subs res)) && (s0 =? s) then 1 else 0)).
-    { unfold ob_cancel_subs. destruct (ob_find (ob_sub_is s0 t) (rs_subs res)); [apply ob_cnt_remove1|].
-      destruct (ob_find (ob_sub_keyis s0 (ob_key o)) (rs_subs res)); [apply ob_cnt_remove1 | cbn; lia]. }
-    destruct (ob_cancel_subs s0 t o (rs_subs res)) as [l b]. cbn [fst snd st_ref st_res] in *.
-    rewrite (ob_count_upd s r _ _ res G). cbn [rs_subs ob_set_subs]. rewrite A.
+    unfold ob_cancel. destruct (ob_get_res r (obst_res st)) as [res|] eqn:G; [|exact H].
+    assert (A : ob_cnt s (fst (ob_cancel_subs s0 t o (obrs_subs res))) =
+                ob_cnt s (obrs_subs res) -
+                (if snd (ob_cancel_subs s0 t o (obrs_subs res)) && (s0 =? s) then 1 else 0)).
+    { unfold ob_cancel_subs. destruct (ob_find (ob_sub_is s0 t) (obrs_subs res)); [apply ob_cnt_remove1|].
+      destruct (ob_find (ob_sub_keyis s0 (ob_key o)) (obrs_subs res)); [apply ob_cnt_remove1 | cbn; lia]. }
+    destruct (ob_cancel_subs s0 t o (obrs_subs res)) as [l b]. cbn [fst snd obst_ref obst_res] in *.
+    rewrite (ob_count_upd s r _ _ res G). cbn [obrs_subs ob_set_subs]. rewrite A.
     destruct b; [rewrite ob_ref_get_add|]; destruct (s0 =? s) eqn:E1; cbn [andb];
       try (apply Z.eqb_eq in E1; subst s0); rewrite ?Z.eqb_refl; lia.
   - (* change *)
-    unfold ob_change. cbn [st_ref st_res]. rewrite H.
-    destruct (ob_get_res r (st_res st)) as [x|] eqn:G; [|rewrite (ob_upd_res_none _ _ _ G); reflexivity].
-    rewrite (ob_count_upd s r _ _ x G). unfold ob_change_res. destruct (rs_subs x) eqn:E; [rewrite E|]; cbn [rs_subs]; lia.
+    unfold ob_change. cbn [obst_ref obst_res]. rewrite H.
+    destruct (ob_get_res r (obst_res st)) as [x|] eqn:G; [|rewrite (ob_upd_res_none _ _ _ G); reflexivity].
+    rewrite (ob_count_upd s r _ _ x G). unfold ob_change_res. destruct (obrs_subs x) eqn:E; [rewrite E|]; cbn [obrs_subs]; lia.
   - (* I/O step *)
-    unfold ob_iostep. destruct (st_pending st); [|exact H].
-    destruct (ob_notify_all p (st_res st) (mk_lp ca false (st_nk st) (st_fl st) (st_ref st)))
-      as [[rs l] outs] eqn:E. cbn [fst st_ref st_res].
-    pose proof (ob_notify_all_refs _ _ _ _ _ _ s E) as R. cbn [lp_ref] in R. lia.
+    unfold ob_iostep. destruct (obst_pending st); [|exact H].
+    destruct (ob_notify_all p (obst_res st) (ob_mk_lp ca false (obst_nk st) (obst_fl st) (obst_ref st)))
+      as [[rs l] outs] eqn:E. cbn [fst obst_ref obst_res].
+    pose proof (ob_notify_all_refs _ _ _ _ _ _ s E) as R. cbn [oblp_ref] in R. lia.
   - (* ack *)
-    unfold ob_ack. destruct (ob_fl_find s0 k (st_fl st)) as [f|]; [|exact H]. cbn [st_ref st_res].
-    destruct (fl_ok f); [rewrite ob_count_touch|]; exact H.
+    unfold ob_ack. destruct (ob_fl_find s0 k (obst_fl st)) as [f|]; [|exact H]. cbn [obst_ref obst_res].
+    destruct (obfl_ok f); [rewrite ob_count_touch|]; exact H.
   - (* rst *)
-    unfold ob_rst. destruct (ob_fl_find s0 k (st_fl st)) as [f|].
-    + pose proof (ob_del_all_res_cnt s0 (fl_tok f) (st_res st) s) as R.
-      destruct (ob_del_all_res s0 (fl_tok f) (st_res st)) as [rs n]. cbn [fst snd st_ref st_res] in *.
+    unfold ob_rst. destruct (ob_fl_find s0 k (obst_fl st)) as [f|].
+    + pose proof (ob_del_all_res_cnt s0 (obfl_tok f) (obst_res st) s) as R.
+      destruct (ob_del_all_res s0 (obfl_tok f) (obst_res st)) as [rs n]. cbn [fst snd obst_ref obst_res] in *.
       rewrite ob_ref_get_add, R. destruct (s0 =? s) eqn:E1; [apply Z.eqb_eq in E1; subst s0|]; rewrite ?Z.eqb_refl; lia.
-    + pose proof (ob_rst_by_last_cnt s0 k (st_res st) s) as R.
-      destruct (ob_rst_by_last s0 k (st_res st)) as [rs b]. cbn [fst snd st_ref st_res] in *.
+    + pose proof (ob_rst_by_last_cnt s0 k (obst_res st) s) as R.
+      destruct (ob_rst_by_last s0 k (obst_res st)) as [rs b]. cbn [fst snd obst_ref obst_res] in *.
       rewrite R. destruct b; [rewrite ob_ref_get_add|]; destruct (s0 =? s) eqn:E1; cbn [andb];
         try (apply Z.eqb_eq in E1; subst s0); rewrite ?Z.eqb_refl; lia.
   - (* give-up *)
-    unfold ob_confailed. destruct (ob_fl_find s0 k (st_fl st)) as [f|]; [|exact H].
-    pose proof (ob_failed_all_cnt p s0 (fl_tok f) (st_res st) s) as R.
-    destruct (ob_failed_all p s0 (fl_tok f) (st_res st)) as [rs n]. cbn [fst snd st_ref st_res] in *.
+    unfold ob_confailed. destruct (ob_fl_find s0 k (obst_fl st)) as [f|]; [|exact H].
+    pose proof (ob_failed_all_cnt p s0 (obfl_tok f) (obst_res st) s) as R.
+    destruct (ob_failed_all p s0 (obfl_tok f) (obst_res st)) as [rs n]. cbn [fst snd obst_ref obst_res] in *.
     rewrite ob_ref_get_add, R. destruct (s0 =? s) eqn:E1; [apply Z.eqb_eq in E1; subst s0|]; rewrite ?Z.eqb_refl; lia.
   - (* handler mode *)
-    unfold ob_set_err. cbn [st_ref st_res]. rewrite H.
-    destruct (ob_get_res r (st_res st)) as [x|] eqn:G; [|rewrite (ob_upd_res_none _ _ _ G); reflexivity].
-    rewrite (ob_count_upd s r _ _ x G). cbn [rs_subs]. lia.
+    unfold ob_set_err. cbn [obst_ref obst_res]. rewrite H.
+    destruct (ob_get_res r (obst_res st)) as [x|] eqn:G; [|rewrite (ob_upd_res_none _ _ _ G); reflexivity].
+    rewrite (ob_count_upd s r _ _ x G). cbn [obrs_subs]. lia.
   - (* session lost *)
-    unfold ob_session_lost. cbn [st_ref st_res]. rewrite ob_ref_get_add, ob_count_lost, H.
+    unfold ob_session_lost. cbn [obst_ref obst_res]. rewrite ob_ref_get_add, ob_count_lost, H.
     destruct (s0 =? s) eqn:E; [|reflexivity]. apply Z.eqb_eq in E. subst. lia.
   - (* resource deleted *)
-    unfold ob_delete_resource. destruct (ob_get_res r (st_res st)) as [res|] eqn:G; [|exact H].
-    pose proof (ob_gone_subs_refs p res ca (rs_subs res) (st_ref st) s) as R.
-    destruct (ob_gone_subs p res ca (rs_subs res) (st_ref st)) as [outs rf]. cbn [fst snd st_ref st_res] in *.
+    unfold ob_delete_resource. destruct (ob_get_res r (obst_res st)) as [res|] eqn:G; [|exact H].
+    pose proof (ob_gone_subs_refs p res ca (obrs_subs res) (obst_ref st) s) as R.
+    destruct (ob_gone_subs p res ca (obrs_subs res) (obst_ref st)) as [outs rf]. cbn [fst snd obst_ref obst_res] in *.
     rewrite R, H. destruct (ob_get_res_split _ _ _ G) as [a [b [E1 [E2 E3]]]]. rewrite E1.
     rewrite (ob_drop_res_split r a res b E2 E3), !ob_count_sess_app, !ob_count_sess_cons.
-    unfold ob_fresh_res. cbn [rs_subs].
+    unfold ob_fresh_res. cbn [obrs_subs].
     replace (ob_count_sess s []) with 0 by reflexivity. replace (ob_cnt s []) with 0 by reflexivity. lia.
 Qed.
 
 Lemma ob_init_refs : forall modes, ob_refs_ok (ob_init modes).
 Proof.
-  intros modes s. unfold ob_init. cbn [st_ref st_res ob_ca_get].
+  intros modes s. unfold ob_init. cbn [obst_ref obst_res ob_ca_get].
   assert (Hz : forall id, ob_count_sess s (ob_init_res id modes) = 0).
   { induction modes as [|[m v] tl IH]; intro id; cbn [ob_init_res]; [reflexivity|].
-    rewrite ob_count_sess_cons. cbn [rs_subs]. rewrite IH. reflexivity. }
+    rewrite ob_count_sess_cons. cbn [obrs_subs]. rewrite IH. reflexivity. }
   rewrite Hz. reflexivity.
 Qed.
 
@@ -324,21 +324,21 @@ Qed.
    ref = 0) *)
 Theorem ob_session_pinned : forall p modes ops s st,
   st = fst (ob_run p (ob_init modes) ops) ->
-  (ob_ca_get (st_ref st) s = ob_count_sess s (st_res st)) /\
-  (forall r x, In r (st_res st) -> In x (rs_subs r) -> sb_sess x = s -> 0 < ob_ca_get (st_ref st) s).
+  (ob_ca_get (obst_ref st) s = ob_count_sess s (obst_res st)) /\
+  (forall r x, In r (obst_res st) -> In x (obrs_subs r) -> obsb_sess x = s -> 0 < ob_ca_get (obst_ref st) s).
 Proof.
   intros p modes ops s st Hst. pose proof (ob_run_refs p ops _ (ob_init_refs modes) s) as H.
   rewrite <- Hst in H. split; [exact H|]. intros r x Hr Hx Hs. rewrite H. clear H Hst.
-  induction (st_res st) as [|r0 rs IH]; [destruct Hr|]. rewrite ob_count_sess_cons.
+  induction (obst_res st) as [|r0 rs IH]; [destruct Hr|]. rewrite ob_count_sess_cons.
   destruct Hr as [->|Hr].
-  - assert (0 < ob_cnt s (rs_subs r)).
-    { clear - Hx Hs. induction (rs_subs r) as [|y l IH]; [destruct Hx|]. rewrite ob_cnt_cons.
+  - assert (0 < ob_cnt s (obrs_subs r)).
+    { clear - Hx Hs. induction (obrs_subs r) as [|y l IH]; [destruct Hx|]. rewrite ob_cnt_cons.
       pose proof (ob_cnt_nonneg s l). destruct Hx as [->|Hx].
       - rewrite Hs, Z.eqb_refl. lia.
-      - specialize (IH Hx). destruct (sb_sess y =? s); lia. }
+      - specialize (IH Hx). destruct (obsb_sess y =? s); lia. }
     assert (0 <= ob_count_sess s rs).
     { clear. induction rs as [|r1 rs IH]; [unfold ob_count_sess; cbn; lia|].
-      rewrite ob_count_sess_cons. pose proof (ob_cnt_nonneg s (rs_subs r1)). lia. }
+      rewrite ob_count_sess_cons. pose proof (ob_cnt_nonneg s (obrs_subs r1)). lia. }
     lia.
-  - specialize (IH Hr). pose proof (ob_cnt_nonneg s (rs_subs r0)). lia.
+  - specialize (IH Hr). pose proof (ob_cnt_nonneg s (obrs_subs r0)). lia.
 Qed.
